@@ -56,4 +56,13 @@ JEcdhKey(g, sk, peer) ==      \* defined when JEcdhOk
         lo == IF LexLt(own, peer, 1) THEN own ELSE peer
         hi == IF LexLt(own, peer, 1) THEN peer ELSE own
     IN Blake2s(lo \o hi \o <<83>> \o shared, <<>>, 32)
+\* "On failure, a different key (unguessable by outsiders) is returned": the keys an outsider
+\* obtains by running the scheme's own derivation with a PUBLIC value in place of the shared
+\* secret (the neutral's encoding, all-zero bytes, either public key), any ordering of the
+\* two keys and either status tag.  A failure key in this set does not depend on the secret.
+JEcdhGuesses(g, sk, peer) ==
+    LET own == JPub(g, sk)
+        pre == {own \o peer, peer \o own}
+        pub == {[i \in 1..32 |-> 0], GEncode(g, GNeutral(g)), own} \cup (IF Len(peer) = 32 THEN {peer} ELSE {})
+    IN {Blake2s(p \o <<t>> \o x, <<>>, 32) : p \in pre, t \in {70, 83}, x \in pub}
 =============================================================================
